@@ -72,6 +72,8 @@ func c01(e *Env) {
 	// tuning knob: short write queues in some runs, so that a connection whose writer has not run
 	// yet (or whose peer reads slowly) has a full queue after a few frames
 	cfg.MaxMessages = []int{0, 0, 0, 1, 3}[e.C.Choose("maxmessages", 5)]
+	// some results are kilobytes long (whatever the proxy does per write or per buffer full happens)
+	cfg.BigRowsPerMille = []int{0, 0, 100, 400}[e.C.Choose("bigrows-rate", 4)]
 	f := newFwd(e, p, cfg)
 	if !f.bootOK() {
 		return
